@@ -12,7 +12,7 @@ from krrood.entity_query_language.predicate import symbolic_function
 
 a = args()
 rep = Report("C10", "query shapes (atoms, and_/or_/not_, two variables, attribute chains, a symbolic function, contains) x one-shot generator "
-             "domains of 4-5 elements x k = 0..4 results pulled; event log of domain pulls, property reads and predicate calls", a.out)
+             "domains of 4-5 elements x result quantification (none, AtLeast, AtMost, Range) x k = 0..4 results pulled; event log of domain pulls, property reads and predicate calls", a.out)
 LOG = []
 
 
@@ -83,11 +83,36 @@ SHAPES = {
     "contains(x.items, 2)": lambda x, y: ([x], contains(x.items, 2), lambda xo, yo: 2 in xo._items),
     "x.v == Probe(5)": lambda x, y: ([x], x.v == Probe(5), lambda xo, yo: xo._v == 5),
     "x.v<y.v": lambda x, y: ([x, y], x.v < y.v, lambda xo, yo: xo._v < yo._v),
+    "x.v==y.v": lambda x, y: ([x, y], x.v == y.v, lambda xo, yo: xo._v == yo._v),
     "x.v<3 and y.v>x.v": lambda x, y: ([x, y], and_(x.v < 3, y.v > x.v), lambda xo, yo: xo._v < 3 and yo._v > xo._v),
     "no-condition": lambda x, y: ([x], None, lambda xo, yo: True),
 }
 
-for sname, mk in SHAPES.items():
+from krrood.entity_query_language.result_quantification_constraint import AtLeast, AtMost, Range
+OUTER = {"x.v<3 and y.v>x.v": lambda xo: xo._v < 3}
+QUANTS = {"none": lambda: None, "AtLeast(1)": lambda: AtLeast(1), "AtMost(6)": lambda: AtMost(6), "Range(1,20)": lambda: Range(AtLeast(1), AtMost(20))}
+
+
+def needed_inner(xs, ys, pred, outer, k):
+    """how far a nested-loop evaluation has advanced the second domain when the k-th row is found"""
+    n, far = 0, 0
+    for xo in xs:
+        if not outer(xo):
+            continue
+        for j, yo in enumerate(ys):
+            far = max(far, j + 1)
+            if pred(xo, yo):
+                n += 1
+                if n == k:
+                    return far
+    return len(ys)
+
+
+for (sname, mk), (qname, mkq) in itertools.product(SHAPES.items(), QUANTS.items()):
+    if qname != "none":
+        sname_q = f"{sname} [{qname}]"
+    else:
+        sname_q = sname
     # reference run (full evaluation, fresh query)
     for k in range(0, 5):
         del LOG[:]
@@ -95,13 +120,15 @@ for sname, mk in SHAPES.items():
         x = let(Obj, gen("x", xs), name="x")
         y = let(Obj, gen("y", ys), name="y")
         st, built = guarded(lambda: mk(x, y))
-        inp = {"shape": sname, "k": k}
-        rep.case((sname, k), sample=inp)
+        inp = {"shape": sname_q, "k": k}
+        rep.case((sname_q, k), sample=inp)
         if st == "exc":
             rep.fail(f"raised::{sname}", f"{sname}: building raised {type(built).__name__}: {built}", inp)
             break
         sel, cond, pred = built
-        q = an(entity(sel[0], cond) if len(sel) == 1 else set_of(sel, cond)) if cond is not None else an(entity(sel[0]))
+        qc = mkq()
+        kw = {} if qc is None else {"quantification": qc}
+        q = an(entity(sel[0], cond) if len(sel) == 1 else set_of(sel, cond), **kw) if cond is not None else an(entity(sel[0]), **kw)
         it = q.evaluate()
         if LOG:
             rep.fail(f"eager-construction::{sname}", f"{sname}: user code / domains touched while building the query: {LOG[:4]}", inp)
@@ -113,6 +140,7 @@ for sname, mk in SHAPES.items():
             rep.fail(f"raised::{sname}", f"{sname}: pulling {k} results raised {type(r).__name__}: {r}", inp)
             break
         pulls_x = [e for e in LOG if e[:2] == ("pull", "x")]
+        pulls_y = [e for e in LOG if e[:2] == ("pull", "y")]
         # expected results in nested-loop order
         if len(sel) == 1:
             full = [xo for xo in xs if pred(xo, None)] if sname not in ("x.v<y.v",) else None
@@ -125,7 +153,7 @@ for sname, mk in SHAPES.items():
                 break
             need = (xs.index(want[-1]) + 1) if (want and len(got) == k) else (len(xs) if k > len(full) else 0)
             if k <= len(full) and len(pulls_x) > need:
-                rep.fail(f"over-pull::{sname}", f"{sname}: {k} results pulled {len(pulls_x)} elements of the domain generator, {need} suffice", inp)
+                rep.fail(f"over-pull::{sname}", f"{sname_q}: {k} results pulled {len(pulls_x)} elements of the domain generator, {need} suffice", inp)
                 break
         else:
             rows = [(r_[x], r_[y]) for r_ in got]
@@ -136,8 +164,13 @@ for sname, mk in SHAPES.items():
             if rows and k <= len(full):
                 need = xs.index(rows[-1][0]) + 1
                 if len(pulls_x) > need:
-                    rep.fail(f"over-pull::{sname}", f"{sname}: {k} rows pulled {len(pulls_x)} elements of the leading domain, {need} suffice", inp)
+                    rep.fail(f"over-pull::{sname}", f"{sname_q}: {k} rows pulled {len(pulls_x)} elements of the leading domain, {need} suffice", inp)
                     break
+                if sname in ("x.v<y.v", "x.v==y.v", "x.v<3 and y.v>x.v"):
+                    need_y = needed_inner(xs, ys, pred, OUTER.get(sname, lambda xo: True), k)
+                    if len(pulls_y) > need_y:
+                        rep.fail(f"over-pull-inner::{sname}", f"{sname_q}: {k} rows pulled {len(pulls_y)} elements of the second domain, {need_y} suffice", inp)
+                        break
         if k == 0 and LOG:
             rep.fail(f"eager-evaluate::{sname}", f"{sname}: evaluate() without next() logged {LOG[:4]}", inp)
             break
